@@ -502,3 +502,37 @@ func BubbleGoroutines() []string {
 	sort.Strings(out)
 	return out
 }
+
+// StuckReport condenses the stacks of the bubble's goroutines to their
+// kafka-go / harness frames (for liveness violation messages).
+func StuckReport(max int) string {
+	var out []string
+	for _, g := range BubbleGoroutines() {
+		lines := strings.Split(g, "\n")
+		var frames []string
+		for _, l := range lines[1:] {
+			if strings.HasPrefix(l, "github.com/segmentio/kafka-go") || strings.HasPrefix(l, "verif/sim.") {
+				f := l
+				if i := strings.Index(f, "("); i > 0 && !strings.HasPrefix(f[i:], "(*") {
+					f = f[:i]
+				}
+				f = strings.TrimPrefix(f, "github.com/segmentio/kafka-go")
+				if i := strings.LastIndex(f, "("); i > 0 && strings.HasSuffix(f, ")") {
+					f = f[:i]
+				}
+				frames = append(frames, f)
+				if len(frames) >= 4 {
+					break
+				}
+			}
+		}
+		if len(frames) > 0 {
+			out = append(out, strings.Join(frames, " < "))
+		}
+	}
+	sort.Strings(out)
+	if len(out) > max {
+		out = out[:max]
+	}
+	return strings.Join(out, " || ")
+}
